@@ -310,4 +310,4 @@ mat.pattern() and pass-through of the AhoCorasick wrappers. None of this code is
 trivial inputs; the rules hold for all haystacks, closures and match sequences at once."""
 NOTE = """Trusted: rustc MIR construction; the fact extractor; std slicing/append semantics. The match sequence itself is C01/C02. Anchors are
 def-paths and the user variable names haystack, dst, m, last_match, replace_with; renaming them is reported as a missing anchor."""
-TECHNIQUE = "static analysis: term reconstruction of slice bounds and call arguments from rustc MIR, graph-cut and ordering queries on the CFG"
+TECHNIQUE = "static analysis: role-based term reconstruction of slice bounds and call arguments from rustc MIR (no local names), graph-cut and ordering queries on the CFG with path-sensitive boolean flow"
